@@ -788,6 +788,237 @@ func clip(b []byte) string {
 	return string(b)
 }
 
+// ---- streams that declare a /Crypt filter, placeholders ------------------------------------------------------
+
+// cryptCases: streams whose dictionary (or filter list) declares /Filter /Crypt with every kind of /Name, written with
+// OpenStream and with Put(*Stream), at every version.  Each must either be refused, or be readable with the password
+// AND leave no plaintext in the file - except for the documented exemption: a stream that selects the Identity crypt
+// filter in a document with crypt filters (V >= 4) is stored unencrypted on purpose.
+func (rn *run) cryptCases() {
+	e := rn.e
+	type variant struct {
+		name     string
+		dict     func(w *pdf.Writer) pdf.Dict
+		filters  []pdf.Filter
+		identity bool // selects the Identity filter (explicitly or by default)
+	}
+	variants := []variant{
+		{"dict-identity", func(*pdf.Writer) pdf.Dict {
+			return pdf.Dict{"Filter": pdf.Name("Crypt"), "DecodeParms": pdf.Dict{"Name": pdf.Name("Identity")}}
+		}, nil, true},
+		{"dict-identity-typed", func(*pdf.Writer) pdf.Dict {
+			return pdf.Dict{"Filter": pdf.Name("Crypt"), "DecodeParms": pdf.Dict{"Type": pdf.Name("CryptFilterDecodeParms"), "Name": pdf.Name("Identity")}}
+		}, nil, true},
+		{"dict-stdcf", func(*pdf.Writer) pdf.Dict {
+			return pdf.Dict{"Filter": pdf.Name("Crypt"), "DecodeParms": pdf.Dict{"Name": pdf.Name("StdCF")}}
+		}, nil, false},
+		{"dict-unknown", func(*pdf.Writer) pdf.Dict {
+			return pdf.Dict{"Filter": pdf.Name("Crypt"), "DecodeParms": pdf.Dict{"Name": pdf.Name("MyFilter")}}
+		}, nil, false},
+		{"dict-noname", func(*pdf.Writer) pdf.Dict { return pdf.Dict{"Filter": pdf.Name("Crypt")} }, nil, true},
+		{"dict-emptyparms", func(*pdf.Writer) pdf.Dict { return pdf.Dict{"Filter": pdf.Name("Crypt"), "DecodeParms": pdf.Dict{}} }, nil, true},
+		{"dict-array", func(*pdf.Writer) pdf.Dict {
+			return pdf.Dict{"Filter": pdf.Array{pdf.Name("Crypt")}, "DecodeParms": pdf.Array{pdf.Dict{"Name": pdf.Name("Identity")}}}
+		}, nil, true},
+		{"dict-array-stdcf", func(*pdf.Writer) pdf.Dict {
+			return pdf.Dict{"Filter": pdf.Array{pdf.Name("Crypt")}, "DecodeParms": pdf.Array{pdf.Dict{"Name": pdf.Name("StdCF")}}}
+		}, nil, false},
+		{"dict-array-null", func(*pdf.Writer) pdf.Dict {
+			return pdf.Dict{"Filter": pdf.Array{pdf.Name("Crypt")}, "DecodeParms": pdf.Array{nil}}
+		}, nil, true},
+		{"dict-parms-ref", func(w *pdf.Writer) pdf.Dict {
+			ref := w.Alloc()
+			w.Put(ref, pdf.Dict{"Name": pdf.Name("StdCF")})
+			return pdf.Dict{"Filter": pdf.Name("Crypt"), "DecodeParms": ref}
+		}, nil, false},
+		{"dict-parms-ref-identity", func(w *pdf.Writer) pdf.Dict {
+			ref := w.Alloc()
+			w.Put(ref, pdf.Dict{"Name": pdf.Name("Identity")})
+			return pdf.Dict{"Filter": pdf.Name("Crypt"), "DecodeParms": ref}
+		}, nil, true},
+		{"dict-crypt-second", func(*pdf.Writer) pdf.Dict {
+			return pdf.Dict{"Filter": pdf.Array{pdf.Name("ASCIIHexDecode"), pdf.Name("Crypt")}}
+		}, nil, false},
+		{"arg-identity", func(*pdf.Writer) pdf.Dict { return pdf.Dict{} }, []pdf.Filter{pdf.FilterCryptIdentity{}}, true},
+	}
+	for _, v := range []pdf.Version{pdf.V1_3, pdf.V1_4, pdf.V1_5, pdf.V1_6, pdf.V1_7, pdf.V2_0} {
+		for _, va := range variants {
+			for _, api := range []string{"OpenStream", "Put"} {
+				if api == "Put" && va.filters != nil {
+					continue
+				}
+				info := map[string]any{"version": fmt.Sprint(v), "variant": va.name, "api": api}
+				key := fmt.Sprintf("crypt|%v|%s|%s", v, va.name, api)
+				dm, bm := marker(e, "cryptdict"), marker(e, "cryptbody")
+				body := bytes.Repeat(bm, 1+e.Rand.IntN(3))
+				if va.name == "dict-crypt-second" {
+					body = []byte(hex.EncodeToString(body) + ">")
+				}
+				buf := &bytes.Buffer{}
+				w, err := pdf.NewWriter(buf, v, &pdf.WriterOptions{UserPassword: "u", OwnerPassword: "o"})
+				if err != nil {
+					e.Fail("writer-refuses", err.Error(), info)
+					continue
+				}
+				ref := w.Alloc()
+				d := va.dict(w)
+				d["S"] = pdf.String(append([]byte{}, dm...))
+				var werr error
+				if api == "OpenStream" {
+					var ws io.WriteCloser
+					ws, werr = w.OpenStream(ref, d, va.filters...)
+					if werr == nil {
+						ws.Write(body)
+						werr = ws.Close()
+					}
+				} else {
+					werr = w.Put(ref, pdf.NewStream(d, append([]byte{}, body...)))
+				}
+				if werr != nil {
+					e.Count(true, key, "crypt-declared/refused")
+					continue
+				}
+				pages := w.Alloc()
+				w.Put(pages, pdf.Dict{"Type": pdf.Name("Pages"), "Kids": pdf.Array{}, "Count": pdf.Integer(0)})
+				w.GetMeta().Catalog.Pages = pages
+				encDict, _ := w.GetMeta().Trailer["Encrypt"].(pdf.Dict)
+				V, _ := encDict["V"].(pdf.Integer)
+				if err := w.Close(); err != nil {
+					e.Count(true, key, "crypt-declared/refused-at-close")
+					continue
+				}
+				data := buf.Bytes()
+				bodyVisible := bytes.Contains(data, bm)
+				dictVisible := bytes.Contains(data, dm) || bytes.Contains(bytes.ToLower(data), []byte(hex.EncodeToString(dm)))
+				if dictVisible {
+					e.Fail("plaintext-in-file", fmt.Sprintf("a string in the dictionary of a stream declaring a Crypt filter (%s) is stored in plaintext", va.name), info)
+				}
+				switch {
+				case bodyVisible && va.identity && V >= 4:
+					// the documented exemption; the model's exemption predicate must agree
+					id := rn.nextID("w")
+					e.Line("cases.txt", "%s W identity 0 t", id)
+					e.Line("impl.obs", "%s 0", id)
+					id = rn.nextID("w")
+					e.Line("cases.txt", "%s W identity 0 s", id)
+					e.Line("impl.obs", "%s %d", id, boolInt(!dictVisible))
+				case bodyVisible && va.identity:
+					e.Fail("crypt-identity-below-V4", fmt.Sprintf("a stream selecting the Identity crypt filter is stored in plaintext in a /V %d document: crypt filters exist from V 4 on, a reader following ISO 32000 applies Algorithm 1 to every stream of such a file", int(V)), info)
+				case bodyVisible:
+					e.Fail("plaintext-in-file", fmt.Sprintf("the data of a stream declaring a non-Identity Crypt filter (%s) is stored in plaintext", va.name), info)
+				}
+				r, err := pdf.NewReader(bytes.NewReader(data), int64(len(data)), &pdf.ReaderOptions{Password: "o"})
+				if err != nil {
+					e.Fail("crypt-declared-unreadable", fmt.Sprintf("file with a stream declaring a Crypt filter cannot be opened: %v", err), info)
+					continue
+				}
+				obj, err := r.Get(ref, true)
+				stm, ok := obj.(*pdf.Stream)
+				if err != nil || !ok {
+					e.Fail("crypt-declared-unreadable", fmt.Sprintf("stream not readable: %v", err), info)
+					continue
+				}
+				if got, _ := stm.Dict["S"].(pdf.String); !bytes.Equal(got, dm) {
+					e.Fail("crypt-declared-unreadable", "dictionary string of the stream does not decrypt", info)
+				}
+				if va.name != "dict-crypt-second" {
+					got, err := pdf.ReadAll(r, nil, stm, 1<<20)
+					if err != nil || !bytes.Equal(got, body) {
+						e.Fail("crypt-declared-unreadable", fmt.Sprintf("the Writer accepted the stream but its data does not read back (%v)", err), info)
+					}
+				}
+				e.Count(true, key, fmt.Sprintf("crypt-declared/accepted/V%d/plaintext=%v", int(V), bodyVisible))
+			}
+		}
+	}
+}
+
+// placeholderCases: a pdf.Placeholder holding a String, set before or after the object is written, on seekable
+// and non-seekable output: the string is part of an encrypted document like any other
+func (rn *run) placeholderCases() {
+	e := rn.e
+	for _, v := range []pdf.Version{pdf.V1_3, pdf.V1_5, pdf.V1_7, pdf.V2_0} {
+		for _, seek := range []bool{true, false} {
+			for _, early := range []bool{true, false} {
+				info := map[string]any{"version": fmt.Sprint(v), "seekable": seek, "set_before_put": early}
+				m := marker(e, "placeholder")
+				mf := &seekBuf{}
+				var out io.Writer = mf
+				if !seek {
+					out = struct{ io.Writer }{mf}
+				}
+				w, err := pdf.NewWriter(out, v, &pdf.WriterOptions{UserPassword: "u"})
+				if err != nil {
+					continue
+				}
+				pages := w.Alloc()
+				w.GetMeta().Catalog.Pages = pages
+				w.Put(pages, pdf.Dict{"Type": pdf.Name("Pages"), "Kids": pdf.Array{}, "Count": pdf.Integer(0)})
+				ph := pdf.NewPlaceholder(w, len(m)+2)
+				if early {
+					ph.Set(pdf.String(append([]byte{}, m...)))
+				}
+				ref := w.Alloc()
+				if err := w.Put(ref, pdf.Dict{"S": ph, "T": pdf.String("other")}); err != nil {
+					continue
+				}
+				if !early {
+					if err := ph.Set(pdf.String(append([]byte{}, m...))); err != nil {
+						continue
+					}
+				}
+				if err := w.Close(); err != nil {
+					continue
+				}
+				data := mf.data
+				e.Count(true, fmt.Sprintf("placeholder|%v|%v|%v", v, seek, early), "placeholder-string")
+				if bytes.Contains(data, m) {
+					e.Fail("placeholder-string-plaintext", "a String held by a pdf.Placeholder is written in plaintext into an encrypted file", info)
+					continue
+				}
+				r, err := pdf.NewReader(bytes.NewReader(data), int64(len(data)), &pdf.ReaderOptions{Password: "u"})
+				if err != nil {
+					e.Fail("placeholder-unreadable", err.Error(), info)
+					continue
+				}
+				obj, _ := r.Get(ref, true)
+				d, _ := obj.(pdf.Dict)
+				s, _ := pdf.Resolve(r, d["S"])
+				if got, _ := s.(pdf.String); !bytes.Equal(got, m) {
+					e.Fail("placeholder-unreadable", "the placeholder's string does not read back", info)
+				}
+			}
+		}
+	}
+}
+
+// seekBuf is an in-memory io.WriteSeeker
+type seekBuf struct {
+	data []byte
+	pos  int
+}
+
+func (b *seekBuf) Write(p []byte) (int, error) {
+	if need := b.pos + len(p); need > len(b.data) {
+		b.data = append(b.data, make([]byte, need-len(b.data))...)
+	}
+	copy(b.data[b.pos:], p)
+	b.pos += len(p)
+	return len(p), nil
+}
+
+func (b *seekBuf) Seek(off int64, whence int) (int64, error) {
+	switch whence {
+	case io.SeekStart:
+		b.pos = int(off)
+	case io.SeekCurrent:
+		b.pos += int(off)
+	case io.SeekEnd:
+		b.pos = len(b.data) + int(off)
+	}
+	return int64(b.pos), nil
+}
+
 // ---- phase 2: files encrypted by the model ----------------------------------------------------
 
 type planItem struct {
@@ -1246,6 +1477,8 @@ func main() {
 		}
 		rn.checkFile(config{version: pdf.V2_0, user: "u", owner: pw, perm: pdf.PermCopy, human: i%2 == 1, forceModel: true})
 	}
+	rn.cryptCases()
+	rn.placeholderCases()
 	rn.planPhase2()
 	e.Finish("nontrivial = distinct (file configuration, object, string/stream) handed to the model, plaintext markers scanned for, groups of equal plaintexts compared", nil)
 }
